@@ -196,9 +196,11 @@ fn vary_expr(e: &E, st: &mut Style) -> E {
         E::Lit(v, k) => {
             if st.radix && *k != 5 {
                 if let Some(r) = st.r() {
-                    let nk = match r.below(6) {
+                    let nk = match r.below(8) {
                         0 => 1,
                         1 => 2,
+                        6 => 6,
+                        7 => 7,
                         2 => {
                             if *v < (1 << 20) {
                                 3
